@@ -76,7 +76,8 @@ type Path struct {
 	prelude    bool
 	revMaps    bool
 	syncMaps   map[*value]*Map
-	dom        map[string]*byteDom
+	tries      map[*value]*[]value
+	dom       map[string]*byteDom
 	entangled  map[string]bool
 	domDecided int
 }
